@@ -13,13 +13,18 @@ def sh(cmd, cwd=None):
     r = subprocess.run(cmd, cwd=cwd, shell=True, env=env, stdout=subprocess.PIPE, stderr=subprocess.STDOUT, text=True)
     return r.returncode, r.stdout
 meta = {"seed": sid, "property": prop}
-# 1. regenerate the patch from the worktree (src only) and copy the demo
-rc, diff = sh("git diff -- src", wt)
-open(os.path.join(dst, "patch.diff"), "w").write(diff)
-shutil.copy(os.path.join(wt, "tests", "seeded_demo.rs"), os.path.join(dst, "seeded_demo.rs"))
-notes = os.path.join(wt, "deliver", "notes.md")
-if os.path.exists(notes):
-    shutil.copy(notes, os.path.join(dst, "notes.md"))
+# 1. the delivered patch is the source of truth (git stash is shared between worktrees, so the
+#    worktree itself may have been disturbed by a concurrent agent): reset and re-apply
+deliver = os.path.join(wt, "deliver")
+shutil.copy(os.path.join(deliver, "patch.diff"), os.path.join(dst, "patch.diff"))
+shutil.copy(os.path.join(deliver, "seeded_demo.rs"), os.path.join(dst, "seeded_demo.rs"))
+if os.path.exists(os.path.join(deliver, "notes.md")):
+    shutil.copy(os.path.join(deliver, "notes.md"), os.path.join(dst, "notes.md"))
+sh("git checkout -- src", wt)
+rc, o = sh(f"git apply {dst}/patch.diff", wt)
+if rc != 0:
+    meta["apply_in_worktree_failed"] = o
+shutil.copy(os.path.join(dst, "seeded_demo.rs"), os.path.join(wt, "tests", "seeded_demo.rs"))
 # 2. confirm
 rc, out = sh("cargo test --offline --no-fail-fast 2>&1", wt)
 lines = [l for l in out.splitlines() if l.startswith("test result") or "Running" in l or "Doc-tests" in l]
@@ -38,10 +43,10 @@ for l in out.splitlines():
             others_pass = False
 meta["with_change_demo_fails"] = demo_fails
 meta["with_change_existing_tests_pass"] = others_pass
-sh("git stash push -q -- src", wt)
+sh(f"git apply -R {dst}/patch.diff", wt)
 rc2, out2 = sh("cargo test --offline --test seeded_demo 2>&1", wt)
 meta["without_change_demo_passes"] = (rc2 == 0)
-sh("git stash pop -q", wt)
+sh(f"git apply {dst}/patch.diff", wt)
 confirmed = demo_fails and others_pass and rc2 == 0
 meta["confirmed"] = confirmed
 # 3. run the check against it in /repo
